@@ -1766,6 +1766,15 @@ func (c *Ctx) rulesR4bounds2() {
 				inScope = true
 			}
 		}
+		// any exported function or method of the package working on state lists:
+		// results or receivers of type S / Time / TimeIndex, or an []int parameter
+		if !inScope {
+			for _, p := range f.Params {
+				if isIntsParam(p) {
+					inScope = true
+				}
+			}
+		}
 		if !inScope {
 			continue
 		}
